@@ -166,8 +166,16 @@ func VerifC15Restart() {
 	for i := 0; i < n; i++ {
 		tag := "w" + string(rune('0'+i))
 		tick(1 + uint64(zzverif.Choose(tag+".idle", 2))*5)
+		// any expectation: matching or stale (symbolic), a little ahead of everything handed out, or far
+		// ahead (a concrete value: the revision counter may not become symbolic, it indexes the
+		// pending-event ring)
 		exp := zzverif.U64(tag + ".exp")
-		zzverif.Assume(exp <= base+uint64(n))
+		if zzverif.Choose(tag+".farAhead", 2) == 1 {
+			exp = base + 5000
+			zzverif.Cover("far-future-expectation")
+		} else {
+			zzverif.Assume(exp <= base+uint64(n))
+		}
 		resp, err := old.Update(ctx, &proto.UpdateRequest{Kv: &proto.KeyValue{Key: key, Value: []byte("v"), Revision: exp}})
 		if err != nil {
 			zzverif.Assert(exp > base+uint64(i), "old leader: a write is rejected with an error only for a future expected revision")
